@@ -3041,6 +3041,11 @@ fn oracle_c08d(fields: &[&str]) -> String {
                 }
             }
             (None, Some(u)) => {
+                // (with the null grid a point outside every grid passes as it came, whatever the operator would
+                // have put in its place inside a grid)
+                if null && kind == "deformation" && !(n == 1 && same_bits(&d[0], &input)) {
+                    return format!("oracle FAIL {def}: point ({}, {}) outside all grids must pass unchanged with the null grid, but came back as ({}, {}, {}, {}) (count {n})", p[0], p[1], d[0][0], d[0][1], d[0][2], d[0][3]);
+                }
                 if !(null && (u == usize::MAX - 1 || (kind == "deformation" && d[0][3].is_nan()) || kind == "deformation")) && kind != "deflection" {
                     return format!("oracle FAIL {def}: point ({}, {}) is outside all grids and margins but was transformed (grid {u})", p[0], p[1]);
                 }
